@@ -102,6 +102,12 @@ def _qplan(what, quick, thorough):
 
 
 PLAN = {
+    "C11": dict(_qplan("dispatch_after with past/now/+1ms/+1s deadlines on the three clocks; periodic, one-shot, re-armed, replaced-before-activation, suspended and concurrent timer populations on virtual clocks "
+                       "('timer expires first' is a deviation)",
+                       "end-to-end: k<=1 for all 22 programs, k<=2 for 4; heap: BFS fixpoint with <=4 live timers + prefilled sizes 0..40 x depth-2 suffixes (depth 3 at segment boundaries)",
+                       "end-to-end: k<=2; heap: BFS fixpoint with <=5 live timers + prefilled sizes 0..40 x depth-3 suffixes"),
+                rule="end-to-end: one evaluation = one execution of a timer program under one schedule on virtual clocks; structural: one evaluation = one operation sequence on the real double heap "
+                     "checked against a sorted-multiset model (count, both minima, back-pointers, heap order in both interleaved heaps)"),
     "C17": _qplan("the last application release of a queue / source / group / semaphore / data object racing with pending or running items, suspend-resume, a queue targeting it, "
                   "notify, an item that re-submits, an item that itself drops the last reference",
                   "k<=3 for the single-thread scenarios, k<=2 for the two-thread ones", "k<=4 / k<=3"),
@@ -191,6 +197,12 @@ def tasks_for(pid, tier):
     q = tier == "quick"
     if pid == "C12":
         return sx("time_c12")
+    if pid == "C11":
+        after = list(range(0, 12))
+        other = list(range(12, 22))
+        if q:
+            return sx("heap_c11") + ds("timer", 1, after + other, jobs=5) + ds("timer", 2, [2, 6, 10, 17], jobs=6)
+        return sx("heap_c11") + ds("timer", 2, after + other, jobs=8)
     if pid == "C13":
         return sx("data_c13")
     if pid == "C18":
